@@ -36,14 +36,14 @@ class Ctx:
     pass
 
 
-def install(sch, scripts, spawn_failure=False):
+def install(sch, scripts, spawn_failure=False, with_child=False):
     """rebinds the seams of halmos.processes to the scheduler-owned world; returns (ctx, restore())"""
     import concurrent.futures._base as cfb
 
     import halmos.processes as P
 
     thr = sched.make_threading(sch)
-    env = sched.SimEnv(sch, scripts, allow_spawn_failure=spawn_failure)
+    env = sched.SimEnv(sch, scripts, allow_spawn_failure=spawn_failure, with_child=with_child)
     conc, pool = sched.make_futures(sch, thr)
     saved = (P.threading, P.Popen, P.psutil, P.time, P.concurrent, cfb.threading)
     saved_registry = P.ExecutorRegistry._instance
@@ -304,6 +304,9 @@ HARNESSES = {
     "solve-shutdown": ([UNSAT], False, lambda c: h_solve(c, True)),
     "solve-300ms": ([UNSAT], False, lambda c: h_solve(c, False, "300ms")),
     "solve-nolimit": ([UNSAT], False, lambda c: h_solve(c, False, "0")),
+    # the solver process has a child of its own that may exit at any moment (signalling it then raises NoSuchProcess)
+    "child-race": ([UNSAT], "child", h_race),
+    "child-timeout": ([UNSAT], "child", h_timeout),
     "refine": ([SAT_INVALID, UNSAT], False, lambda c: h_solve(c, False, refine=True)),
     "refine-shutdown": ([SAT_INVALID, UNSAT], False, lambda c: h_solve(c, True, refine=True)),
 }
@@ -312,7 +315,7 @@ HARNESSES = {
 def run_one(hname, choices):
     scripts, spawn_failure, body = HARNESSES[hname]
     sch = sched.Scheduler(choices=choices, trace_files=TRACE, horizon=6000, trace_funcs=TRACE_FUNCS)
-    c, restore = install(sch, scripts, spawn_failure)
+    c, restore = install(sch, scripts, spawn_failure is True, with_child=(spawn_failure == "child"))
     exc = None
     try:
         sch.run(lambda: body(c))
@@ -364,6 +367,9 @@ def invariants(hname, sch, exc):
     for p in c.env.procs:
         if p.state == "running":
             bad.append(("alive-at-end", f"process {p.pid} is still running when every thread has finished"))
+        ch = getattr(p, "child", None)
+        if ch is not None and ch.state == "running" and p.returncode is not None and p.returncode < 0:
+            bad.append(("child-alive-at-end", f"solver process {p.pid} was killed ({p.returncode}) but its child process {ch.pid} is still running"))
     # submit after shutdown returned is refused
     for who, kind, val in c.obs:
         if who == "submit2" and hname == "after" and kind != "refused":
@@ -372,7 +378,7 @@ def invariants(hname, sch, exc):
     timeouts = {int(l.split(":")[1]) for l, _ in log if l.startswith("timeout:")}
     for i, f in enumerate(getattr(c, "futs", [])):
         started = f.start_time is not None or f.process is not None or f.done()
-        accepted = any(w == f"submit{i + 1}" and k == "accepted" for w, k, _ in c.obs) or hname not in ("race", "race-wait", "two-submitters")
+        accepted = any(w == f"submit{i + 1}" and k == "accepted" for w, k, _ in c.obs) or hname not in ("race", "race-wait", "two-submitters", "child-race")
         if accepted and not f.done():
             bad.append(("not-delivered", f"future {i + 1} was accepted but never completed"))
     for who, kind, val in c.obs:
@@ -440,7 +446,7 @@ def bounds(tier, hname):
     """(deviation bound, budget of executions per shard)"""
     if tier == "quick":
         # the two submit-vs-shutdown races are small enough for two deviations in the quick tier (D27 needed two)
-        return (2, 40000) if hname in ("race", "race-wait") else (1, 3000)
+        return (2, 40000) if hname in ("race", "race-wait", "child-race", "child-timeout") else (1, 3000)
     return (2, 40000) if hname in SMALL else (1, 40000)
 
 
